@@ -137,6 +137,52 @@ func vc20randDuration(r *rand.Rand) time.Duration {
 
 var vc20unitTokens = []string{"ns", "us", "µs", "μs", "ms", "s", "m", "h", "d"}
 
+// vc20directed is a fixed corpus that every run evaluates in full, whatever the seed: families of texts around the
+// decisions a duration parser makes (unit spelling byte by byte, digit counts, signs, zero, fractions, several terms,
+// cut-off encodings). Random generation visits these families too, but a family of two or three strings out of 2^40
+// deserves to be listed.
+func vc20directed() []string {
+	var out []string
+	add := func(ss ...string) { out = append(out, ss...) }
+	// unit spellings: every two-byte sequence around the two micro signs, and look-alikes
+	for _, lead := range []byte{0xc2, 0xce, 0xc3, 0xcf, 0xcd, 0xe2} {
+		for _, cont := range []byte{0xb5, 0xbc, 0xb4, 0xb6, 0xbb, 0xbd, 0x95, 0x9c} {
+			add("7"+string([]byte{lead, cont})+"s", "1h2"+string([]byte{lead, cont})+"s", "7"+string([]byte{lead, cont}))
+		}
+	}
+	for _, u := range []string{"ns", "us", "µs", "μs", "ms", "s", "m", "h", "d", "NS", "S", "H", "D", "Ms", "mS", "u", "µ", "μ", "n", "sec", "min", "hr", "hs", "mm", "sm", "ds", "dd", "", " s", "s ", "\x00s", "s\x00"} {
+		add("5"+u, "1.5"+u, "-5"+u, ".5"+u, "5."+u, "1h5"+u)
+	}
+	// digit counts: zero padding and the 19/20-digit edge
+	for k := 0; k <= 26; k++ {
+		z := strings.Repeat("0", k)
+		add(z+"1h", z+"9223372036854775807ns", z+"9223372036854775808ns", "-"+z+"9223372036854775808ns", "1h"+z+"30m", "0."+z+"1s", "1."+z+"h", z+"."+z+"s", z+"d", z+"1d")
+	}
+	for k := 15; k <= 32; k++ {
+		add("0."+strings.Repeat("9", k)+"s", "1."+strings.Repeat("0", k)+"1h", "0."+strings.Repeat("123456789", k/9+1)[:k]+"m", "2562047."+strings.Repeat("7", k)+"h", strings.Repeat("9", k)+"ns", "0."+strings.Repeat("9", k)+"d")
+	}
+	// signs and zero
+	add("--5s", "-+5s", "+-1h30m", "++0", "+-0", "-", "+", "--", "- 5s", "5-s", "5s-", "-5s-3s", "5s+3s", "-0s", "+0s", "-0h0m0s", "-0.0ms", "-0.4ns", "+0.4ns", "-.0s", "-0", "+0", "0", "-0d", "-0.4d", "00", "-00", "0s0", "0 ")
+	// several terms: fractions carried (or not) from one term to the next, repeated and descending/ascending units
+	add("1.5h30m", "0.5s1ns", "1.25m3s0.5ms", "1h.5m", "1.h2m", "1.5h1.5h", "0.1s0.1s0.1s", "1ns1us1ms1s1m1h", "1h1m1s1ms1us1ns", "1s1s", "1.5s2", "1.5s2s", "3s1.5", "1d1.5h", "1.5d1h", "0.5d0.5d", "1h2d3m")
+	// the extremes, approached from several terms
+	add("2562047h47m16.854775807s", "2562047h47m16.854775808s", "-2562047h47m16.854775808s", "-2562047h47m16.854775809s", "2562047h47m16s854775807ns", "2562047h47m16s854775808ns", "9223372036s854775807ns", "9223372036s854775808ns", "153722867m16.854775807s", "153722867m16.854775808s",
+		"106751d23h47m16.854775807s", "106751d23h47m16.854775808s", "-106751d23h47m16.854775808s", "-106751d23h47m16.854775809s", "106752d", "106751.991167300d", "9223372036854775807ns9223372036854775807ns", "4611686018427387904ns4611686018427387904ns", "4611686018427387904ns4611686018427387903ns")
+	// cut-off and odd encodings anywhere
+	for _, frag := range []string{"\xef\xbf", "\xef", "\xef\xbf\xbd", "\xc2", "\xce", "\xf0\x9f\x98", "\xff", "\x80", "\xc0\xaf", "\xed\xa0\x80"} {
+		add("5"+frag, frag, "1h"+frag+"30m", frag+"5s", "5s"+frag, "5"+frag+"s", "1.5"+frag)
+	}
+	var un []string
+	for _, x := range out {
+		if y, err := strconv.Unquote(`"` + strings.ReplaceAll(x, `"`, `\"`) + `"`); err == nil {
+			un = append(un, y)
+		} else {
+			un = append(un, x)
+		}
+	}
+	return un
+}
+
 func vc20genString(r *rand.Rand) string {
 	switch r.IntN(10) {
 	case 0, 1, 2, 3, 4: // grammar
@@ -486,6 +532,11 @@ func TestVerifC20(t *testing.T) {
 			checkDur(i, d, &local)
 		}
 		rep.add("boundary_durations", int64(len(bd)))
+		ds := vc20directed()
+		for i, x := range ds {
+			checkStr(i, x, &local)
+		}
+		rep.add("directed_strings", int64(len(ds)))
 		rep.nt = append(rep.nt, local...)
 	}
 
@@ -536,7 +587,7 @@ func TestVerifC20(t *testing.T) {
 	enc(map[string]any{"t": "sample", "idx": 0, "case": map[string]any{"duration_ns": int64(-9223372036854775807), "compact": vc20try(-9223372036854775807, false), "fractional": vc20try(-9223372036854775807, true)}, "observed": "formatted and parsed back"})
 	enc(map[string]any{"t": "sample", "idx": 1, "case": map[string]any{"text": "1.5d3h", "ours": vc20parse("1.5d3h"), "std": "rejects (unknown unit d)"}, "observed": "day unit understood"})
 	enc(map[string]any{"t": "sample", "idx": 2, "case": map[string]any{"text": "2h45m30.5s", "ours": vc20parse("2h45m30.5s")}, "observed": "agrees with time.ParseDuration"})
-	evals := int64(nDur+nStr) + rep.stats["boundary_durations"]
+	evals := int64(nDur+nStr) + rep.stats["boundary_durations"] + rep.stats["directed_strings"]
 	if only != "" {
 		evals = 1
 	}
